@@ -428,7 +428,7 @@ def run (inp obs : List String) : Verdict :=
   | none => { agree := false, model := "unparsable-input" }
   | some f =>
     let o := (field toks "o").getD "?"
-    let tags := tagsOf f o
+    let tags := tagsOf f o ++ ["target-" ++ (field toks "t").getD "absent"]
     let saveObs := (field obs "save").getD "?"
     let loadObs := (field obs "load").getD "?"
     let cls (s : String) : String := if s.startsWith "err" then "err" else s
